@@ -60,7 +60,8 @@ int32_t matrixSslValidatePeerCerts(ssl_t *ssl,
 {
     matrixValidateCertsOptions_t *opts;
     psX509Cert_t *foundIssuer;
-    int32_t rc;
+    psX509Cert_t *cert;
+    int32_t rc, validateRc;
 
     opts = &ssl->validateCertsOpts;
 
@@ -79,9 +80,27 @@ int32_t matrixSslValidatePeerCerts(ssl_t *ssl,
         return MATRIXSSL_ERROR;
     }
 
+    validateRc = rc;
+
     psCheckSetPathLenFailure(ssl, ssl->sec.cert);
     rc = psCheckValidationResult(ssl,
             ssl->sec.cert);
+
+    /* psCheckValidationResult only looks at the authStatus values it has
+       an alert for.  A failure reported through the return value of
+       matrixValidateCertsExt (e.g. PS_ARG_FAIL, PS_PARSE_FAIL) or through
+       any other authStatus than PS_CERT_AUTH_PASS is a failure as well. */
+    if (validateRc < 0)
+    {
+        rc = validateRc;
+    }
+    for (cert = ssl->sec.cert; rc >= 0 && cert != NULL; cert = cert->next)
+    {
+        if (cert->authStatus != PS_CERT_AUTH_PASS)
+        {
+            rc = PS_CERT_AUTH_FAIL;
+        }
+    }
 
     /* Same rule as in the TLS 1.2 path: without any loaded CA a chain that
        merely ends in a self-signed certificate validates internally, but
